@@ -2,10 +2,91 @@
 """Regenerates MANIFEST.json from the table below (kept in one place so it stays valid)."""
 import json, subprocess
 
-HOOK_COMMITS = ["01ad918"]
+HOOK_COMMITS = ['01ad918']
 
 # id -> (category, technique, level text, level note, design ref)
 CHECKS = {
+ "C01": ("model_checking",
+  "exhaustive enumeration of context-chain programs and top-level sessions replayed on a reference CEK evaluator and on the real VM, compared form by form",
+  "Every chain of <= 3 (quick) / 4 (thorough) one-hole contexts out of 42 around 27 leaves (2.0M / 84M programs) and every session of <= 4 / 5 forms over a 14-form alphabet of definitions, redefinitions and calls is evaluated by the real VM and by an independent reference machine (CEK, explicit store, derived forms by the R7RS 7.3 definitions); values, failures and display/write output are compared per form; depth <= 2 programs also run after unrelated history and in fresh VMs. Exhaustive within the bound; combination defects of this code base have witnesses of size <= 3.",
+  "The reference machine is validated against the pinned integration tests (316 forms replayed). Programs on which R7RS prescribes no outcome are excluded by the model and counted. Hygiene is not claimed.",
+  "5.1"),
+ "C02": ("model_checking",
+  "exhaustive enumeration of scope skeletons (bindings x set! placement x closure use) against the reference machine's store model",
+  "All nests of 1..4 procedures over three names with total cost <= 4 (quick: 230k skeletons; cost <= 3 at depth 4) / <= 5 (thorough), every write storing a fresh counter value and every level logging all three names, so a wrong slot, a copied location or a location shared between activations changes the log. Compared with the reference machine whose environment is the R7RS storage model.",
+  "Beyond the cost bound nothing is claimed (no sampling).",
+  "5.2"),
+ "C03": ("model_checking",
+  "systematic exploration of forced-collection schedules of real executions with an independent heap reachability audit after every collection",
+  "For each program (templates, C01 chains, C02 skeletons, C05 call/cc programs) the real VM is re-run under periodic schedules F_k and under every single (thorough: every pair of) collection placement; a forced collection runs the real run_gc. Each execution must observe exactly what the undisturbed run observes, and after every collection an independent traversal checks I1 (no reachable cell reclaimed), I2, I3 (free list / map) and I4 (symbol table). 2.5M audited heap states in the quick tier.",
+  "Collections are forced only at points where natural ones can occur. Hook: feature verif.",
+  "5.3"),
+ "C04": ("exploration",
+  "exhaustive family of tail-call loops measured with a stack high-water-mark hook",
+  "19k (quick) / 100k+ (thorough) loops: chains of <= 2/3 tail contexts out of 17, the call direct / via apply / via eval, all 10x10 arity pairs with and without rest parameters, self / 2- / 3-procedure recursion; value equals the closed form and the non-tail twin; high-water mark at n=1000 within 64 slots of n=10 (thorough also n=10^5); the twin must grow (anti-vacuity) and the reference machine confirms the call is a tail call.",
+  "Space is the VM stack pointer maximum (hook).",
+  "5.4"),
+ "C05": ("model_checking",
+  "exhaustive product of call/cc templates replayed on the reference CEK machine (continuations are data there) and on the real VM",
+  "14k (quick) / 100k (thorough) programs: position of call/cc x receiver (return, escape, store k in variable / list / closure / vector) x frame (top level, variadic, after a different-arity tail call) x same-form re-entry loop x every sequence of <= 2/3 later invocation forms (direct, guarded loop, inside map / for-each, inside another continuation's extent, from depth 3, operand position), with mutations of captured locals and data between capture and re-entry.",
+  "Continuations are applied to exactly one value.",
+  "5.5"),
+ "C06": ("exploration",
+  "exhaustive enumeration of lexeme soups (in-process) and of builtin x arity x boundary-palette calls and cyclic-data uses in isolated worker processes with memory cap and watchdog",
+  "Every concatenation of <= 4/5 lexemes through scan, parse_text, eval_text, prepare_eval+run_count and the highlighter at every cursor; every global procedure (enumerated from the VM) at arity 0..2/3 over a 48-value boundary palette and up to arity 3/5 over one value per kind (535k calls quick); cyclic structures through list? length equal? display write and as the value of an evaluation. Oracle: value or error, the error renders, and the same VM then evaluates (+ 1 2).",
+  "Allocation sizes > 10^6 excluded as the property states. Cycle-unsafe printing is recorded as known findings (exact keys).",
+  "5.6"),
+ "C07": ("fault_enumeration",
+  "fault injection at every expression position x every fault kind of effectful sessions, compared with the reference machine and with fresh-VM stack traces / stack pointer / resource measurements",
+  "15 effectful session programs, 349 expression positions, 8 expression fault kinds + 3 read faults, each once and twice in a row (5.6k sessions); afterwards probes of all globals, a fixed failing call whose stack trace must equal the fresh-VM trace, and sp must be the fresh-VM value; sp, stack capacity and live heap after 60 (1000 thorough) consecutive failures equal those after 5 (10).",
+  "The reference machine aborts to top level keeping completed effects (R7RS has no handlers in this grammar).",
+  "5.7"),
+ "C08": ("exploration",
+  "exhaustive pairs / triples of a boundary palette in every internal representation against arbitrary-precision rational arithmetic",
+  "All pairs of 102 exact boundary values in all representation combinations through + - * / quotient remainder modulo, unary abs floor ceiling truncate numerator denominator, expt with 10 exponents in 3 representations, ternary + * (290k evaluations): exact results must be exact and right, inexact only when not representable and within 2^-50 relative error, integer division always exact, representation-independent.",
+  "'Representable' = integer of any size or rational with 32-bit numerator/denominator. Overflow-checks are on in the harness profile.",
+  "5.8"),
+ "C09": ("exploration",
+  "exhaustive pairs / triples of the exact + float palette against exact rational comparison",
+  "All ordered pairs of 567 numbers (every representation, floats adjacent to every exact member, 2^53 / 2^63 neighbourhoods, subnormals, infinities) through < = > <= >= min max, the sign predicates, and the variadic forms on all triples of a 56/120-number sub-palette (2.6M evaluations quick).",
+  "NaN outside the property.",
+  "5.9"),
+ "C12": ("exploration",
+  "finite grid of growth experiments (n vs 10n, implementation compared with itself) plus heap-audit invariant I2 after every forced collection of a schedule exploration",
+  "13 garbage kinds x 3 live-set sizes x (n, 10n) in fresh VMs plus each kind as successive top-level evaluations: heap capacity, stack capacity, sp and live cells after a final collection must not grow; I2 (nothing unreachable stays allocated) is evaluated after every forced collection of F1, F5 and S1 schedules.",
+  "The asymptotic claim beyond 10n is evidenced, not decided.",
+  "5.12"),
+ "C13": ("model_checking",
+  "exhaustive budget-sequence exploration of the public prepare_eval / run_count API against the uninterrupted run, with a real collection and heap audit at every slice end",
+  "For templates, C01 chains and C05 programs: constant budgets 1..64 (each also with a forced collection + heap audit at every slice end), periodic pairs, and every pair of cut points for short programs; each not-completed slice must execute between 1 and b instructions (hook counter), the run must complete, and results, output and global probes must equal Vm::eval.",
+  "marwood-wasm's eval/eval_continue loop is mirrored; the crate cannot be linked.",
+  "5.13"),
+ "C14": ("model_checking",
+  "explicit-state breadth-first search over a reference store model with every transition executed on the real VM; whole-pool observation incl. aliasing by mutation probing; path replay from the initial state",
+  "BFS to depth 2 (quick: 854 states expanded, 293k transitions) / 3 (thorough) from 6 initial pools, canonical states (first-visit renaming, unreachable dropped), 735 operation instances covering every procedure the property names with indices -1..len+1 and 2^62; result (value or required error) and the full pool (contents + aliasing) compared after every transition; shortest paths of a sub-set of states replayed from the initial pool in fresh VMs.",
+  "Instances whose outcome R7RS leaves open are not enabled; vector-copy's end argument excluded (pinned).",
+  "5.14"),
+ "C15": ("model_checking",
+  "explicit-state BFS over a Vec<char> model with every transition on the real VM, plus exhaustive checks of pure character procedures over all scalar values and palette pairs",
+  "BFS to depth 2/3 over two possibly aliased strings of <= 3 characters of 1-4 bytes, a char slot and a result slot, 1168 operation instances with every index/start/end in -1..4; every Unicode scalar through the case and class procedures; all pairs of a 90-character palette through the ci predicates against their R7RS defining equations.",
+  "No case-folding table in std: foldcase compared with lower-casing where they coincide.",
+  "5.15"),
+ "C17": ("model_checking",
+  "exhaustive (transformer, use) enumeration in isolated workers against a reference syntax-rules matcher/instantiator",
+  "308k (quick) / 4.6M (thorough) pairs: all pattern shapes with <= 3 atoms, sub-patterns nested <= 1/2, one ellipsis per list, dotted tails, custom ellipsis; templates = products of per-variable usages plus structural and R7RS-invalid shapes; uses with every ellipsis matching 0..2/3 items and near misses; two-rule transformers. Valid => error or exactly the reference expansion; invalid => anything but panic/abort/hang; always terminates (watchdog, memory cap).",
+  "Hygiene outside the property; unequal ellipsis match counts unconstrained (pinned).",
+  "5.17"),
+ "C18": ("model_checking",
+  "exhaustive routes x names x collection schedules x evaluation structure, with the heap audit (symbol-table bijection) after every collection",
+  "All ordered pairs of 7 production routes x 22 names (incl. escaped spellings) x same / different name x 3 evaluation structures x 3 schedules; inverses over every one-character string (all scalars), 1.9k trouble strings and every reader symbol of <= 3 characters over 24 characters.",
+  "Names the reader cannot spell are produced via string->symbol only.",
+  "5.18"),
+ "C19": ("exploration",
+  "complete configuration grid, one child process per cell, exit status as oracle",
+  "8 directions x 7 operations x depths 10^3..10^5 x main / 2 MiB thread x release (quick) + dev (thorough) = 216 / 432 cells, each in its own process; 206 failing cells are recorded as exact-key known findings (native recursion in parser, compiler, marker, equal?, printer, drop), so any additional failing cell is a new violation.",
+  "One slow cell (quadratic compiler, ~60 s) is thorough-only.",
+  "5.19"),
+
  "C10": ("exploration",
          "exhaustive enumeration of data (all Unicode scalars, structured doubles, boundary numbers, reader symbols, container chains) through write -> read -> write and quote-eval",
          "Every datum of the enumerated families is written with the real printer, read with the real reader and compared structurally (value + exactness), then quoted and evaluated in a real VM. Characters are covered completely (all 1,112,064 scalar values); doubles structurally (every exponent x 24 mantissa patterns x sign); containers as all chains of depth <= 4 (quick) / 6 (thorough) over 12 shapes.",
